@@ -1,6 +1,10 @@
 import Qv.Proofs.Expr
 import Qv.Proofs.Values
 import Qv.Proofs.Unique
+import Qv.Proofs.UniqueSpin
+import Qv.Proofs.ExprErr
+import Qv.Proofs.MulKey
+import Qv.Proofs.SquashSem
 /-!
 # C05 — Model arithmetic and evaluation agree with polynomial arithmetic
 
@@ -9,7 +13,7 @@ Only the property theorems and their non-vacuity examples live here (helper lemm
 `qubovert/utils/_dict_arithmetic.py` etc. is the correspondence check `harness/c05.py`.
 -/
 namespace Qv.C05
-open Qv
+open Qv Qv.ExprErr
 
 /-- **T5.1 (homomorphism, whole expression trees).**  For every expression tree `t` built from
 `+ - * ** unary± /` (copying, reflected and in-place forms all evaluate through `run`) over models of
@@ -38,33 +42,62 @@ theorem tree_canonical (s : Bool) (t : Expr) (κ : Kind) (p : Poly)
   · exact absurd h' hd
   · exact h'
 
-/-- **T5.4 (equal functions ⇒ equal dicts), boolean family — `_partial`: the spin family is not
-mechanised (it needs the boolean/spin bijection of C04 at coefficient level).**  If two expression trees over
-boolean models evaluate successfully and denote the same function on boolean assignments, the two
-resulting models have the same coefficient at every key — i.e. they compare equal as dicts (both are
-canonical by `tree_canonical`: distinct keys, no zero values, so equality of `get` is dict equality). -/
-theorem equal_functions_equal_dicts_partial (t1 t2 : Expr) (κ1 κ2 : Kind) (p q : Poly)
-    (hf1 : t1.family false = true) (hf2 : t2.family false = true)
+/-- **T5.4 at the level of dicts, both families.**  Two canonical dicts (distinct keys, every key strictly
+sorted, no zero coefficient — the form `tree_canonical` guarantees for every stored model) that take
+the same value at every assignment of the family (`s = false`: boolean, `s = true`: spin) have the same
+coefficient at every key.  No bound on degree, number of terms or labels. -/
+theorem canonical_dicts_unique (s : Bool) (p q : Poly)
+    (hp : (keys p).Nodup ∧ (∀ k ∈ keys p, SSorted k) ∧ (∀ kv ∈ p, kv.2 ≠ 0))
+    (hq : (keys q).Nodup ∧ (∀ k ∈ keys q, SSorted k) ∧ (∀ kv ∈ q, kv.2 ≠ 0))
+    (h : ∀ x, (if s then IsSpin x else IsBool x) → eval x p = eval x q) :
+    ∀ k, get p k = get q k := by
+  have mk : ∀ (κ : Kind), κ ≠ .dict → κ.isDeg2 = false → ∀ {r : Poly},
+      (keys r).Nodup ∧ (∀ k ∈ keys r, SSorted k) ∧ (∀ kv ∈ r, kv.2 ≠ 0) → WF (squash κ) r :=
+    fun κ _ h2 r hr => ⟨hr.1, fun k hk => squash_of_canon (Or.inr ⟨hr.2.1 k hk, by simp [h2]⟩), hr.2.2⟩
+  cases s with
+  | false =>
+    exact coeff_eq_of_eval_eq (mk .pubo (by decide) rfl hp) (mk .pubo (by decide) rfl hq)
+      (fun x hx => h x (by simpa using hx))
+  | true =>
+    exact USpin.coeff_eq_of_eval_eq_spin (mk .puso (by decide) rfl hp) (mk .puso (by decide) rfl hq)
+      (fun x hx => h x (by simpa using hx))
+
+/-- **T5.4 (equal functions ⇒ equal dicts), both families.**  If two expression trees over models of one
+family (`s = false`: boolean, `s = true`: spin) evaluate successfully and denote the same function on
+the assignments of that family, the two resulting models have the same coefficient at every key. -/
+theorem equal_functions_equal_dicts (s : Bool) (t1 t2 : Expr) (κ1 κ2 : Kind) (p q : Poly)
+    (hf1 : t1.family s = true) (hf2 : t2.family s = true)
     (h1 : run t1 = .ok (.mdl κ1 p)) (h2 : run t2 = .ok (.mdl κ2 q))
-    (h : ∀ x, IsBool x → den x t1 = den x t2) : ∀ k, get p k = get q k := by
-  have toPubo : ∀ {κ : Kind} {r : Poly}, κ ≠ .dict → WF (squash κ) r → WF (squash .pubo) r := by
-    intro κ r hd w
-    refine ⟨w.nodup, fun k hk => ?_, w.nonzero⟩
-    rcases squash_canon (w.fixed k hk) with h' | h'
-    · exact absurd h' hd
-    · exact squash_of_canon (Or.inr ⟨h'.1, by simp [Kind.isDeg2]⟩)
-  have hx1 : Fam false (fun _ => (1 : Rat)) := by simp [Fam, IsBool]
-  have g1 := (run_sound (s := false) (x := fun _ => 1) hx1 t1 hf1 h1).2
-  have g2 := (run_sound (s := false) (x := fun _ => 1) hx1 t2 hf2 h2).2
-  apply coeff_eq_of_eval_eq (toPubo g1.1 g1.2.2) (toPubo g2.1 g2.2.2)
+    (h : ∀ x, (if s then IsSpin x else IsBool x) → den x t1 = den x t2) :
+    ∀ k, get p k = get q k := by
+  have c1 := tree_canonical s t1 κ1 p hf1 h1
+  have c2 := tree_canonical s t2 κ2 q hf2 h2
+  apply canonical_dicts_unique s p q
+    ⟨c1.1, fun k hk => (c1.2.1 k hk).1, c1.2.2⟩ ⟨c2.1, fun k hk => (c2.2.1 k hk).1, c2.2.2⟩
   intro x hx
-  have e1 := (run_sound (s := false) (x := x) (by simpa [Fam] using hx) t1 hf1 h1).1
-  have e2 := (run_sound (s := false) (x := x) (by simpa [Fam] using hx) t2 hf2 h2).1
+  have e1 := tree_value s x hx t1 _ hf1 h1
+  have e2 := tree_value s x hx t2 _ hf2 h2
   simp only [Val.eval] at e1 e2
   rw [e1, e2, h x hx]
 
-/-- **T5.5 (result type).**  The result of a binary operator is a model of the type of the model
-operand (the left one if both are models). -/
+/-- **T5.4, as Python's `==` on dicts sees it.**  Under the same hypotheses the two results hold exactly
+the same `(key, value)` items (dict equality ignores insertion order). -/
+theorem equal_functions_equal_items (s : Bool) (t1 t2 : Expr) (κ1 κ2 : Kind) (p q : Poly)
+    (hf1 : t1.family s = true) (hf2 : t2.family s = true)
+    (h1 : run t1 = .ok (.mdl κ1 p)) (h2 : run t2 = .ok (.mdl κ2 q))
+    (h : ∀ x, (if s then IsSpin x else IsBool x) → den x t1 = den x t2) :
+    ∀ kv, kv ∈ p ↔ kv ∈ q := by
+  have hg := equal_functions_equal_dicts s t1 t2 κ1 κ2 p q hf1 hf2 h1 h2 h
+  have c1 := tree_canonical s t1 κ1 p hf1 h1
+  have c2 := tree_canonical s t2 κ2 q hf2 h2
+  intro kv
+  exact ⟨USpin.items_eq_of_get_eq c1.1 c1.2.2 hg,
+    USpin.items_eq_of_get_eq c2.1 c2.2.2 (fun k => (hg k).symm)⟩
+
+/-- **Result type.**  The result of an operator is a model of the type of the model operand (the left
+one if both are models); `add_kind … div_kind` for a model on the left, `radd_kind`, `rsub_kind`,
+`rmul_kind` for the reflected forms.  In the pure model operands are values, so "operands unchanged"
+is not a statement about it; the harness checks it on the real objects by deep snapshots. -/
 theorem add_kind (κ : Kind) (p : Poly) (b v : Val) (h : Val.add (.mdl κ p) b = .ok v) :
     ∃ r, v = .mdl κ r := by
   cases b <;> simp only [Val.add, bind_ok_iff, pure, Except.pure] at h <;>
@@ -74,6 +107,148 @@ theorem mul_kind (κ : Kind) (p : Poly) (b v : Val) (h : Val.mul (.mdl κ p) b =
     ∃ r, v = .mdl κ r := by
   cases b <;> simp only [Val.mul, mulModel, bind_ok_iff, pure, Except.pure] at h <;>
     (obtain ⟨d, _, r, _, h⟩ := h; injection h with h; exact ⟨r, h.symm⟩)
+
+theorem sub_kind (κ : Kind) (p : Poly) (b v : Val) (h : Val.sub (.mdl κ p) b = .ok v) :
+    ∃ r, v = .mdl κ r := by
+  cases b <;> exact mdlop_kind h
+
+theorem pow_kind (κ : Kind) (p : Poly) (e : Int) (v : Val) (h : Val.pow (.mdl κ p) e = .ok v) :
+    ∃ r, v = .mdl κ r := mdlop_kind h
+
+theorem neg_kind (κ : Kind) (p : Poly) (v : Val) (h : Val.neg (.mdl κ p) = .ok v) :
+    ∃ r, v = .mdl κ r := mulModel_kind (b := .num (-1)) h
+
+theorem pos_kind (κ : Kind) (p : Poly) (v : Val) (h : Val.pos (.mdl κ p) = .ok v) :
+    ∃ r, v = .mdl κ r := pos_shape_kind h
+
+theorem div_kind (κ : Kind) (p : Poly) (c : Rat) (v : Val) (h : Val.div (.mdl κ p) c = .ok v) :
+    ∃ r, v = .mdl κ r := mdlop_kind h
+
+/-- the copy constructor `κ(a)` returns type `κ` whatever the type of `a` -/
+theorem cast_kind (κ : Kind) (a v : Val) (h : Val.cast κ a = .ok v) : ∃ r, v = .mdl κ r :=
+  Val.cast_kind h
+
+/-- **reflected forms**: a number or plain dict on the left of a model — the model decides the type -/
+theorem radd_kind (a : Val) (ha : ∀ κ' p', a ≠ .mdl κ' p') (κ : Kind) (p : Poly) (v : Val)
+    (h : Val.add a (.mdl κ p) = .ok v) : ∃ r, v = .mdl κ r := by
+  cases a with
+  | num c => exact mdlop_kind h
+  | raw q => exact mdlop_kind h
+  | mdl κ' p' => exact absurd rfl (ha κ' p')
+
+theorem rmul_kind (a : Val) (ha : ∀ κ' p', a ≠ .mdl κ' p') (κ : Kind) (p : Poly) (v : Val)
+    (h : Val.mul a (.mdl κ p) = .ok v) : ∃ r, v = .mdl κ r := by
+  cases a with
+  | num c => exact mulModel_kind (b := .num c) h
+  | raw q => exact mulModel_kind (b := .raw q) h
+  | mdl κ' p' => exact absurd rfl (ha κ' p')
+
+theorem rsub_kind (a : Val) (ha : ∀ κ' p', a ≠ .mdl κ' p') (κ : Kind) (p : Poly) (v : Val)
+    (h : Val.sub a (.mdl κ p) = .ok v) : ∃ r, v = .mdl κ r := by
+  have key : ∀ o : Val, (mulModel κ p (.num (-1)) >>= fun m => Val.add m o) = .ok v →
+      ∃ r, v = .mdl κ r := by
+    intro o h
+    simp only [bind_ok_iff] at h
+    obtain ⟨m, hm, h⟩ := h
+    obtain ⟨r, rfl⟩ := mulModel_kind hm
+    exact add_kind κ r o v h
+  cases a with
+  | num c => exact key (.num c) h
+  | raw q => exact key (.raw q) h
+  | mdl κ' p' => exact absurd rfl (ha κ' p')
+
+/-- **result type, whole trees**: the type of the model a tree evaluates to is the type of one of the
+tree's model nodes (a `κ(dict)` leaf or a copy constructor `κ(·)`). -/
+theorem result_type_in_tree (t : Expr) (κ : Kind) (p : Poly) (h : run t = .ok (.mdl κ p)) :
+    Expr.has (fun κ' => κ' == κ) t = true :=
+  run_has (fun κ' => κ' == κ) t h (by simp [Val.has])
+
+/-! ### T5.5 — which exceptions, and from where -/
+
+/-- **(a)** `run` raises nothing but `KeyError`, `ValueError`, `ZeroDivisionError`, `TypeError`. -/
+theorem run_errors (t : Expr) (e : Err) (h : run t = .error e) :
+    e = .key ∨ e = .value ∨ e = .zerodiv ∨ e = .type := by
+  rcases run_err t h with h | ⟨h, _⟩ | ⟨h, _⟩ | ⟨h, _⟩
+  · exact Or.inr (Or.inr (Or.inr h))
+  · exact Or.inl h
+  · exact Or.inr (Or.inl h)
+  · exact Or.inr (Or.inr (Or.inl h))
+
+/-- **(d)** a `KeyError` implies that some model node of the tree is of a degree-2 type
+(QUBO, QUSO, QUBOMatrix, QUSOMatrix). -/
+theorem keyerror_needs_deg2 (t : Expr) (h : run t = .error .key) :
+    Expr.has Kind.isDeg2 t = true := by
+  rcases run_err t h with h | ⟨_, h⟩ | ⟨h, _⟩ | ⟨h, _⟩
+  · cases h
+  · exact h
+  · cases h
+  · cases h
+
+/-- **(b)** a tree whose model nodes are all of the types PUBO, PUSO, PCBO, PCSO, PUBOMatrix, PUSOMatrix
+(or plain `DictArithmetic`) never raises `KeyError`. -/
+theorem no_keyerror_without_deg2 (t : Expr) (h : Expr.has Kind.isDeg2 t = false) :
+    run t ≠ .error .key := by
+  intro he
+  rw [keyerror_needs_deg2 t he] at h
+  cases h
+
+/-- **(c1)** `ValueError` only from a `**` node with exponent `≤ 0`. -/
+theorem valueerror_needs_bad_pow (t : Expr) (h : run t = .error .value) : Expr.badPow t = true := by
+  rcases run_err t h with h | ⟨h, _⟩ | ⟨_, h⟩ | ⟨h, _⟩
+  · cases h
+  · cases h
+  · exact h
+  · cases h
+
+/-- **(c2)** `ZeroDivisionError` only from a `/ 0` node. -/
+theorem zerodiv_needs_zero_div (t : Expr) (h : run t = .error .zerodiv) : Expr.zeroDiv t = true := by
+  rcases run_err t h with h | ⟨h, _⟩ | ⟨h, _⟩ | ⟨_, h⟩
+  · cases h
+  · cases h
+  · cases h
+  · exact h
+
+/-- **(c1′)** on a canonical model, `m ** n` raises `ValueError` iff `n ≤ 0`. -/
+theorem pow_valueerror_iff (κ : Kind) (p : Poly) (hp : WF (squash κ) p) (n : Int) :
+    Val.pow (.mdl κ p) n = .error .value ↔ n ≤ 0 := pow_value_iff hp n
+
+/-- **(c2′)** on a canonical model, `m / c` raises `ZeroDivisionError` iff `c = 0` and `m` has a term
+(`m / 0` on the empty model loops over no key and returns the empty model). -/
+theorem div_zerodiv_iff (κ : Kind) (p : Poly) (hp : WF (squash κ) p) (c : Rat) :
+    Val.div (.mdl κ p) c = .error .zerodiv ↔ c = 0 ∧ p ≠ [] := ExprErr.div_zerodiv_iff hp c
+
+/-- **T5.5 (degree-2 types, product).**  For a degree-2 type `κ` and a canonical left operand `p`,
+`p * q` (`q` a model of any type or a plain dict) raises `KeyError` iff some stored key of `p` and some
+key of `q` together squash to more than two labels — `squashB` (boolean) keeps the labels that occur,
+`squashS` (spin) those that occur an odd number of times, see `squashB_labels` / `squashS_labels`. -/
+theorem mul_keyerror_iff (κ : Kind) (hκ : κ.isDeg2 = true) (p : Poly) (hp : WF (squash κ) p)
+    (q : Poly) (b : Val) (hb : b = .raw q ∨ ∃ κ2, b = .mdl κ2 q) :
+    Val.mul (.mdl κ p) b = .error .key ↔
+      ∃ kp ∈ keys p, ∃ kq ∈ keys q,
+        2 < (if κ.isSpin = true then squashS (kp ++ kq) else squashB (kp ++ kq)).length :=
+  mulModel_key_iff hκ hp q b hb
+
+/-- **T5.5 (degree-2 types, sum and difference).**  With a canonical left operand of a degree-2 type,
+`p + q` / `p - q` raise `KeyError` iff some key of `q` squashes to more than two labels. -/
+theorem add_keyerror_iff (κ : Kind) (hκ : κ.isDeg2 = true) (p : Poly) (hp : WF (squash κ) p)
+    (q : Poly) (b : Val) (hb : b = .raw q ∨ ∃ κ2, b = .mdl κ2 q) :
+    Val.add (.mdl κ p) b = .error .key ↔
+      ∃ kq ∈ keys q, 2 < (if κ.isSpin = true then squashS kq else squashB kq).length :=
+  add_key_iff hκ hp q b hb
+
+theorem sub_keyerror_iff (κ : Kind) (hκ : κ.isDeg2 = true) (p : Poly) (hp : WF (squash κ) p)
+    (q : Poly) (b : Val) (hb : b = .raw q ∨ ∃ κ2, b = .mdl κ2 q) :
+    Val.sub (.mdl κ p) b = .error .key ↔
+      ∃ kq ∈ keys q, 2 < (if κ.isSpin = true then squashS kq else squashB kq).length :=
+  sub_key_iff hκ hp q b hb
+
+/-- the boolean squashed key is strictly sorted and holds exactly the labels of the raw key -/
+theorem squashB_labels (k : Key) : SSorted (squashB k) ∧ ∀ i, i ∈ squashB k ↔ i ∈ k :=
+  ⟨squashB_sorted k, fun i => mem_squashB_iff i k⟩
+
+/-- the spin squashed key is strictly sorted and holds exactly the labels of odd multiplicity -/
+theorem squashS_labels (k : Key) : SSorted (squashS k) ∧ ∀ i, i ∈ squashS k ↔ k.count i % 2 = 1 :=
+  ⟨squashS_sorted k, fun i => mem_squashS_iff i k⟩
 
 /-- **T5.2 (value functions).** -/
 theorem pubo_value (x : Var → Rat) (hx : IsBool x) (p : Poly) : puboValue x p = eval x p :=
@@ -107,5 +282,81 @@ example : (run (.mul (.mdl .qubo [([0, 1], 1)]) (.mdl .qubo [([2], 1)]))).toOpti
 
 example : IsBool (fun i => if i = 0 then 1 else 0) := by
   intro i; by_cases h : i = 0 <;> simp [h]
+
+/-! #### T5.4, spin: `(a + b) * c` and `a*c + b*c` built from PUSO / QUSO / PCSO leaves -/
+
+/-- both trees evaluate, to models (of different types) holding the same items in a different insertion
+order -/
+example :
+    terms? (run (.mul (.add (.mdl .puso [([0, 1, 2], 2), ([0], -1)]) (.mdl .pcso [([1], 3), ([], 1/2)]))
+      (.mdl .quso [([1, 2], 1), ([0], 5)])))
+      = some (.puso, [([0], 9/2), ([1, 2], 21/2), ([0, 1, 2], -1), ([], -5), ([2], 3), ([0, 1], 15)])
+    ∧ terms? (run (.add (.mul (.mdl .pcso [([1], 3), ([], 1/2)]) (.mdl .quso [([1, 2], 1), ([0], 5)]))
+      (.mul (.mdl .puso [([0, 1, 2], 2), ([0], -1)]) (.mdl .quso [([1, 2], 1), ([0], 5)]))))
+      = some (.pcso, [([2], 3), ([0, 1], 15), ([1, 2], 21/2), ([0], 9/2), ([0, 1, 2], -1), ([], -5)]) := by
+  decide +kernel
+
+/-- the hypothesis "same function" of `equal_functions_equal_dicts` holds for that pair -/
+example (x : Var → Rat) :
+    den x (.mul (.add (.mdl .puso [([0, 1, 2], 2), ([0], -1)]) (.mdl .pcso [([1], 3), ([], 1/2)]))
+      (.mdl .quso [([1, 2], 1), ([0], 5)]))
+    = den x (.add (.mul (.mdl .pcso [([1], 3), ([], 1/2)]) (.mdl .quso [([1, 2], 1), ([0], 5)]))
+      (.mul (.mdl .puso [([0, 1, 2], 2), ([0], -1)]) (.mdl .quso [([1, 2], 1), ([0], 5)]))) := by
+  simp only [den]; ring
+
+/-- a pair that is equal only because spins square to one: `z0 * z0` and `1` -/
+example : terms? (run (.mul (.mdl .puso [([0], 1)]) (.mdl .puso [([0], 1)]))) = some (.puso, [([], 1)]) := by
+  decide +kernel
+
+example (z : Var → Rat) (hz : IsSpin z) :
+    den z (.mul (.mdl .puso [([0], 1)]) (.mdl .puso [([0], 1)])) = den z (.mdl .puso [([], 1)]) := by
+  have := hz.sq 0
+  simp only [den, eval_cons, eval_nil, mon_cons, mon_nil]
+  linarith
+
+/-- a canonical spin dict in the sense of `canonical_dicts_unique` -/
+example : (keys [([0, 2], (3 : Rat)), ([], -1)]).Nodup ∧ (∀ k ∈ keys [([0, 2], (3 : Rat)), ([], -1)], SSorted k) ∧
+    (∀ kv ∈ [([0, 2], (3 : Rat)), ([], -1)], kv.2 ≠ 0) := by
+  refine ⟨by decide, ?_, ?_⟩
+  · intro k hk; simp [keys] at hk; rcases hk with rfl | rfl <;> simp [SSorted]
+  · intro kv hkv; simp at hkv; rcases hkv with rfl | rfl <;> norm_num
+
+example : IsSpin (fun i => if i = 0 then -1 else 1) := by
+  intro i; by_cases h : i = 0 <;> simp [h]
+
+/-! #### T5.5: each of the four exceptions occurs, from the node the theorems name -/
+
+example : errOf (run (.mul (.mdl .qubo [([0, 1], 1)]) (.mdl .pubo [([2], 1)]))) = some .key := by
+  decide +kernel
+example : Expr.has Kind.isDeg2 (.mul (.mdl .qubo [([0, 1], 1)]) (.mdl .pubo [([2], 1)])) = true := rfl
+/-- same operands, non-degree-2 type on the left: no `KeyError` -/
+example : errOf (run (.mul (.mdl .pubo [([0, 1], 1)]) (.mdl .qubo [([2], 1)]))) = none := by
+  decide +kernel
+/-- spin: the shared label cancels, two labels remain, no `KeyError`; with a fresh label it overflows -/
+example : errOf (run (.mul (.mdl .quso [([0, 1], 1)]) (.mdl .quso [([1, 2], 1)]))) = none := by
+  decide +kernel
+example : errOf (run (.mul (.mdl .quso [([0, 1], 1)]) (.mdl .quso [([2], 1)]))) = some .key := by
+  decide +kernel
+/-- `QUBO + PUBO` with a cubic term on the right: `KeyError`; the other way round it is fine -/
+example : errOf (Val.add (.mdl .qubo [([0], 1)]) (.mdl .pubo [([0, 1, 2], 1)])) = some .key := by
+  decide +kernel
+example : errOf (Val.add (.mdl .pubo [([0, 1, 2], 1)]) (.mdl .qubo [([0], 1)])) = none := by
+  decide +kernel
+example : errOf (run (.pow (.mdl .pubo [([0], 1)]) 0)) = some .value := by decide +kernel
+example : errOf (run (.div (.mdl .puso [([0], 1)]) 0)) = some .zerodiv := by decide +kernel
+example : errOf (run (.div (.mdl .puso []) 0)) = none := by decide +kernel
+example : errOf (run (.add (.raw [([0], 1)]) (.raw [([0], 1)]))) = some .type := by decide +kernel
+
+/-- a canonical degree-2 operand for `mul_keyerror_iff` / `pow_valueerror_iff` / `div_zerodiv_iff` -/
+example : WF (squash .quso) [([0, 1], 1), ([], 2)] := by
+  refine ⟨by decide, ?_, ?_⟩
+  · intro k hk; simp [keys] at hk; rcases hk with rfl | rfl <;> decide +kernel
+  · intro kv hkv; simp at hkv; rcases hkv with rfl | rfl <;> norm_num
+
+/-- reflected forms evaluate: `3 - QUSO`, `dict * PCBO` -/
+example : terms? (Val.sub (.num 3) (.mdl .quso [([0, 1], 1)])) = some (.quso, [([0, 1], -1), ([], 3)]) := by
+  decide +kernel
+example : terms? (Val.mul (.raw [([1, 1], 2)]) (.mdl .pcbo [([0], 1)])) = some (.pcbo, [([0, 1], 2)]) := by
+  decide +kernel
 
 end Qv.C05
